@@ -5,7 +5,9 @@ import Driver.Util
 Line-protocol driver for the consensus-queue model (prefixes `C06` and `C14` share `step`, each with
 its own state) and for the prune-time jailing function of C13 part B (prefix `C13B`).
 
-`C13B prune <delivered> <total> <vals> <evidence a:h,…>` → jailed validators, sorted.
+`C13B prune <delivered> <total> <vals> <submissions a:h,…>` → jailed validators, sorted.  The last
+argument is the HISTORY of accepted evidence submissions (oldest first, a validator may occur several
+times); the evidence the message holds is `evidenceAfter` of it.
 
 ops (every op prints exactly one line):
   `reset <lastId>`                                   → `ok`
@@ -18,18 +20,22 @@ ops (every op prints exactly one line):
   `put <kind> <content> <sender> <assignee> <remote> <reqEst>` → `<id> <item>`
   `enq <kind> <content> <sender> <mev> <ts>`         → `fail` | `<id> <item>`
   `pick <mev> <ts>`                                  → `fail` | `<assignee> <remote>`
-  `sign <id> <val> <addr> <by> <ref>`                → `ok|notfound|nokey|dupkey|dupval|badsig <item>`
+  `putn <n> <kind> <content> <sender> <assignee> <remote> <reqEst>` → `<firstId> <lastId> <queue length>`   (n × `put`, contents content, content+1, …)
+  `sign <id> <val> <addr> <by> <ref> [<wire>]`       → `ok|notfound|nokey|dupkey|dupval|badsig <item>`
   `est <id> <val> <value>`                           → `ok|rejected <item>`
   `endblock`                                         → `panic` | `<item> <item> …` | `-`
   `pub <id>` `err <id>` `evid <id> <val> <h>` `rm <id>` → `ok|notfound <item>`
   `relay <val>`                                      → `<id,…>`
   `bput <nonce> <content> <remote>`                  → `<batch>`
-  `bconf <nonce> <val> <addr> <by> <ref>`            → `ok|notfound|noaddr|mismatch|badsig|dup|dupkey <batch>`
+  `bconf <nonce> <val> <addr> <by> <ref> [<wire>]`   → `ok|notfound|noaddr|mismatch|badsig|dup|dupkey <batch>`
   `bgas <nonce> <g>`                                 → `ok|refused <batch>`
   `fee <m> <c> <s> <g>`                              → `<r> <c> <s>` | `panic`
   `q <op …>`                                         → first word of the op's answer
 `ref` says which bytes were signed: `c` the item's current ones, `o<k>` the k-th distinct byte string
 the item ever had (0-based, in order of first appearance), `g` unrelated bytes.
+`wire` is the byte form of the submitted signature: `c` (default) r‖s‖v with v∈{0,1}, `h` the twin
+(r, n−s, v xor 1), `w` v spelled 27/28, `r` v+2, `s` 64 bytes, `l` 66 bytes.
+`relay` answers `offeredPage` (the offered list cut to `defaultResponseMessageCount`).
 -/
 namespace Driver.Queue
 open Paloma.Queue
@@ -50,6 +56,16 @@ def parseKind? (s : String) : Option Kind :=
   | "s" => some .slc
   | "u" => some .uusc
   | "o" => some .other
+  | _ => none
+
+def parseWire? (s : String) : Option Wire :=
+  match s with
+  | "c" => some .canonical
+  | "h" => some .highS
+  | "w" => some .v27
+  | "r" => some .recid23
+  | "s" => some .short
+  | "l" => some .long
   | _ => none
 
 def showKind : Kind → String
@@ -176,6 +192,31 @@ def showConfRes : ConfRes → String
 def withEnv (d : DState) (f : Env → Env) : DState × String :=
   ({ d with s := { d.s with env := f d.s.env } }, "ok")
 
+def stepSign (d : DState) (id v a b ref w : String) : DState × String :=
+  match parseNat? id, parseNat? v, parseNat? a, parseNat? b, parseWire? w with
+  | some id, some v, some a, some b, some w =>
+    match resolveRef d id ref with
+    | none => (d, "bad-op")
+    | some f =>
+      let res := sign d.s id v a b f w
+      ({ d with s := res.1 }, s!"{showSignRes res.2} {showItemOf res.1 id}")
+  | _, _, _, _, _ => (d, "bad-op")
+
+def stepConfirm (d : DState) (n v a b ref w : String) : DState × String :=
+  match parseNat? n, parseNat? v, parseNat? a, parseNat? b, parseWire? w with
+  | some n, some v, some a, some b, some w =>
+    match resolveBRef d n ref with
+    | none => (d, "bad-op")
+    | some f =>
+      let res := confirm d.s n v a b f w
+      ({ d with s := res.1 }, s!"{showConfRes res.2} {showBatchOf res.1 n}")
+  | _, _, _, _, _ => (d, "bad-op")
+
+/-- `n` consecutive `put`s with contents `content`, `content + 1`, … -/
+def putN : Nat → State → Kind → Nat → Nat → Nat → Nat → Bool → State
+  | 0, s, _, _, _, _, _, _ => s
+  | n + 1, s, k, c, sd, a, r, q => putN n (put s k c sd a r q).1 k (c + 1) sd a r q
+
 def stepRaw (d : DState) (args : List String) : DState × String :=
   match args with
   | ["reset", n] =>
@@ -230,15 +271,14 @@ def stepRaw (d : DState) (args : List String) : DState × String :=
       | none => (d, "fail")
       | some x => (d, s!"{x.1} {x.2}")
     | _, _ => (d, "bad-op")
-  | ["sign", id, v, a, b, ref] =>
-    match parseNat? id, parseNat? v, parseNat? a, parseNat? b with
-    | some id, some v, some a, some b =>
-      match resolveRef d id ref with
-      | none => (d, "bad-op")
-      | some f =>
-        let res := sign d.s id v a b f
-        ({ d with s := res.1 }, s!"{showSignRes res.2} {showItemOf res.1 id}")
-    | _, _, _, _ => (d, "bad-op")
+  | ["sign", id, v, a, b, ref] => stepSign d id v a b ref "c"
+  | ["sign", id, v, a, b, ref, w] => stepSign d id v a b ref w
+  | ["putn", n, k, c, sd, a, r, q] =>
+    match parseNat? n, parseKind? k, parseNat? c, parseNat? sd, parseNat? a, parseNat? r, parseBool? q with
+    | some n, some k, some c, some sd, some a, some r, some q =>
+      let s' := putN n d.s k c sd a r q
+      ({ d with s := s' }, s!"{d.s.nextId + 1} {s'.nextId} {s'.queue.length}")
+    | _, _, _, _, _, _, _ => (d, "bad-op")
   | ["est", id, v, x] =>
     match parseNat? id, parseNat? v, parseNat? x with
     | some id, some v, some x =>
@@ -275,7 +315,7 @@ def stepRaw (d : DState) (args : List String) : DState × String :=
     | none => (d, "bad-op")
   | ["relay", v] =>
     match parseNat? v with
-    | some v => (d, Driver.showNatList (offered d.s.queue v))
+    | some v => (d, Driver.showNatList (offeredPage d.s.queue v))
     | none => (d, "bad-op")
   | ["bput", n, c, r] =>
     match parseNat? n, parseNat? c, parseNat? r with
@@ -283,15 +323,8 @@ def stepRaw (d : DState) (args : List String) : DState × String :=
       let s' := putBatch d.s n c r
       ({ d with s := s' }, showBatchOf s' n)
     | _, _, _ => (d, "bad-op")
-  | ["bconf", n, v, a, b, ref] =>
-    match parseNat? n, parseNat? v, parseNat? a, parseNat? b with
-    | some n, some v, some a, some b =>
-      match resolveBRef d n ref with
-      | none => (d, "bad-op")
-      | some f =>
-        let res := confirm d.s n v a b f
-        ({ d with s := res.1 }, s!"{showConfRes res.2} {showBatchOf res.1 n}")
-    | _, _, _, _ => (d, "bad-op")
+  | ["bconf", n, v, a, b, ref] => stepConfirm d n v a b ref "c"
+  | ["bconf", n, v, a, b, ref, w] => stepConfirm d n v a b ref w
   | ["bgas", n, g] =>
     match parseNat? n, parseNat? g with
     | some n, some g =>
@@ -318,7 +351,7 @@ def step (d : DState) (args : List String) : DState × String :=
     let r := stepRaw d args
     (track r.1, r.2)
 
-/-- `C13B prune <delivered 0|1> <total> <vals a:s,…> <evidence a:h,…>` → sorted list of validators jailed by
+/-- `C13B prune <delivered 0|1> <total> <vals a:s,…> <submissions a:h,…>` → sorted list of validators jailed by
     `PruneJob`: nobody for a message without delivery/error report (`punishValidatorForMissingRelay`)
     and nobody when the evidence does reach consensus (`jailValidatorsWhichMissedAttestation` bails
     out); otherwise `pruneJail` over the evidence suppliers. -/
@@ -329,9 +362,9 @@ def stepPrune (args : List String) : String :=
     | some dl, some t, some vs, some es =>
       if !dl then "-"
       else
-        match Paloma.Libcons.verifyEvidence ⟨vs, t⟩ es with
+        match Paloma.Libcons.verifyEvidence ⟨vs, t⟩ (Paloma.Libcons.evidenceAfter es) with
         | .winnerIn _ => "-"
-        | .notAchieved => showNatList (sortNat (Paloma.Libcons.pruneJail ⟨vs, t⟩ (es.map (·.1))))
+        | .notAchieved => showNatList (sortNat (Paloma.Libcons.pruneJail ⟨vs, t⟩ ((Paloma.Libcons.evidenceAfter es).map (·.1))))
     | _, _, _, _ => "bad-op"
   | _ => "bad-op"
 
